@@ -66,11 +66,20 @@ pub fn conn_num(c: &ConnectionId) -> u64 {
 
 impl NodeExec {
     pub fn new(sdh: bool, tables: Arc<Tables>) -> Self {
+        Self::with_variant(sdh, b' ', tables)
+    }
+
+    /// `variant`: how the builder is used besides the send-dont-have option — `a`: a protocol prefix is set
+    /// before the option, `b`: after it (no option may undo another, whatever the order).
+    pub fn with_variant(sdh: bool, variant: u8, tables: Arc<Tables>) -> Self {
         v::clock::reset();
         let store = ScriptedStore::new();
-        let node = Behaviour::<S, _>::builder(Arc::new(store.clone()))
-            .client_set_send_dont_have(sdh)
-            .build();
+        let b = Behaviour::<S, _>::builder(Arc::new(store.clone()));
+        let node = match variant {
+            b'a' => b.protocol_prefix("/v").expect("prefix").client_set_send_dont_have(sdh).build(),
+            b'b' => b.client_set_send_dont_have(sdh).protocol_prefix("/v").expect("prefix").build(),
+            _ => b.client_set_send_dont_have(sdh).build(),
+        };
         let flag = Arc::new(Flag(AtomicBool::new(false)));
         let waker = Waker::from(flag.clone());
         NodeExec { node, store, fmt: Fmt { tables, sdh }, flag, waker, addr: "/memory/1".parse().unwrap() }
